@@ -444,6 +444,23 @@ class Context:
                         ok, detail = None, f"replay raised {type(e).__name__}: {e}\n{traceback.format_exc(limit=4)}"
                     rec["replayed"] = None if ok is None else bool(ok)
                     rec["replay_detail"] = detail
+                    if ok is not True and getattr(self, "harness_ref", None) is not None:
+                        # the hand-written replay runs a fixed family of scenarios and did not show the failure: re-run the harness itself on the
+                        # real code with every symbol pinned to the model's value
+                        module, hname = self.harness_ref
+                        gsc = {"module": module, "harness": hname, "obligation": oid,
+                               "values": {k: _plain(model_value(m, t)) for k, t in self.symbols.items()}, "functions": model_functions(m)}
+                        try:
+                            ok2, detail2 = generic_replay(gsc)
+                        except BaseException as e:
+                            ok2, detail2 = None, f"generic replay raised {type(e).__name__}: {e}"
+                        finally:
+                            V.set_context(self)
+                        if ok2 is True:
+                            rec["scenario"], rec["replay_fn"] = gsc, "symx.explorer:generic_replay"
+                            rec["replayed"], rec["replay_detail"] = True, detail2
+                        else:
+                            rec["replay_detail"] = f"{detail} | generic re-run: {str(detail2)[:300]}"
                 elif getattr(self, "harness_ref", None) is not None:
                     module, hname = self.harness_ref
                     scenario = {"module": module, "harness": hname, "obligation": oid,
